@@ -135,6 +135,12 @@ package db
 //@   before[attachments-after-acceptance] call addAttachments#1 isNilErr(callres(dynamic, 1, 4)) && called(runSyncFn, 1) && isNilErr(callres(runSyncFn, 1, 5))
 //@   before[backup-after-acceptance]      call backupAncestorRevs#1 isNilErr(callres(dynamic, 1, 4)) && called(runSyncFn, 1) && isNilErr(callres(runSyncFn, 1, 5)) && (called(addAttachments, 1) ==> isNilErr(callres(addAttachments, 1, 0)))
 //@   before[sequence-after-acceptance]    call assignSequence#1 isNilErr(callres(dynamic, 1, 4)) && called(runSyncFn, 1) && isNilErr(callres(runSyncFn, 1, 5)) && (called(addAttachments, 1) ==> isNilErr(callres(addAttachments, 1, 0)))
+// (C04) nothing in the CAS-retry callback deletes an external revision body: an attempt that does not commit must leave
+// every body the stored document still references (the clean-up belongs to updateAndReturnDoc, after the commit)
+//@   also C04: no-delete-before-commit, no-raw-delete-before-commit
+//@   before[no-delete-before-commit] call deleteRemovedRevisionBodies false
+//@   before[no-raw-delete-before-commit] call Delete false
+//@   before[no-raw-delete-before-commit] call DeleteRaw false
 //@   before[bodies-after-sequence]        call persistModifiedRevisionBodies#1 called(assignSequence, 1) && isNilErr(callres(assignSequence, 1, 1)) && isNilErr(callres(updateHLV, 1, 1))
 // (C02) the channel set stamped on the backup of the superseded revision is the document's channel set from BEFORE this
 // update: the result of the first getCurrentChannels call, which precedes the callback and the sync function.
@@ -154,6 +160,11 @@ package db
 //@   before[callback-on-this-doc] call dynamic#1 $0 == doc
 //@   before[winner-recomputed-on-this-doc] call updateWinningRevAndSetDocFlags#1 $0 == doc && isNilErr(callres(dynamic, 1, 4))
 //@   before[winner-recomputed-before-sync-fn] call runSyncFn#1 called(updateWinningRevAndSetDocFlags, 1)
+// (C07/C11) the sequences abandoned by earlier CAS-retry iterations of this write are carried into assignSequence and what it
+// hands back (abandoned + possibly one more) is what a successful iteration returns, so none is lost between iterations
+//@   also C07: carries-abandoned, returns-carried
+//@   before[carries-abandoned] call assignSequence#1 $4 == unusedSequences
+//@   ensures[returns-carried]  isNilErr(err) ==> called(assignSequence, 1) && retUnusedSequences == callres(assignSequence, 1, 0)
 //@   before[sequence-for-this-doc] call assignSequence#1 $2 == previousDocSequenceIn && $3 == doc && called(updateWinningRevAndSetDocFlags, 1)
 //@   ensures[sync-fn-reject]        called(runSyncFn, 1) && !isNilErr(callres(runSyncFn, 1, 5)) && !callres(ForceAPIForbiddenErrors, 1, 0) ==> !isNilErr(err)
 //@   ensures[sync-fn-reject-masked] called(runSyncFn, 1) && !isNilErr(callres(runSyncFn, 1, 5)) && called(ForceAPIForbiddenErrors, 1) && callres(ForceAPIForbiddenErrors, 1, 0) ==> err == box(ErrForbidden)
@@ -220,6 +231,12 @@ package db
 //@   only-contracts RedactErrorf
 //@   best-effort getAttachmentIDsForLeafRevisions#1
 //@   propagates unmarshalDocumentWithXattrs#1 documentUpdateFunc#1 MarshalWithXattrs#1
+// (C04) nothing in the CAS-retry callback deletes an external revision body: an attempt that does not commit must leave
+// every body the stored document still references (the clean-up belongs to updateAndReturnDoc, after the commit)
+//@   also C04: no-delete-before-commit, no-raw-delete-before-commit
+//@   before[no-delete-before-commit] call deleteRemovedRevisionBodies false
+//@   before[no-raw-delete-before-commit] call Delete false
+//@   before[no-raw-delete-before-commit] call DeleteRaw false
 // (C05) every invocation of the write callback re-reads the value/xattrs/cas the storage layer hands it and runs the update on that
 //@   also C05: reads-current-value, callback-after-reload, callback-carries-sequence
 //@   before[reads-current-value] call unmarshalDocumentWithXattrs#1 $3 == currentValue && $4 == currentXattrs && $5 == cas
